@@ -1,7 +1,7 @@
 --------------------------- MODULE KeyRing_Trace ---------------------------
 (* Total trace specification for C37.  One event per operation on the real
    interpreter:
-     {op: press|inkey|readn|pokehead|poketail|peek, k: [[chars], scan], n, v: pointer byte value POKEd,
+     {op: press|inkey|readn|pokehead|poketail|peek, k: [[chars], scan], n, v: pointer byte value POKEd, idiom: BOOLEAN (the POKE was written POKE 1050,PEEK(1052)),
       res: [bytes delivered], bios: [the 36 bytes PEEK(1050)..PEEK(1085) AFTER the operation], reset: BOOLEAN}
    header: {keys: [[[chars], scan], ...]} the keystrokes the driver types.
 
@@ -40,12 +40,17 @@ Step(e) ==
         b    == e.bios
         poke == IsPoke(e)
         \* the clearing POKE: the value written is the current value of the other pointer
-        clr  == (e.op = "pokehead" /\ e.v = p0[2]) \/ (e.op = "poketail" /\ e.v = p0[1])
+        idiom == poke /\ Has(e, "idiom") /\ e.idiom           \* the literal POKE 1050,PEEK(1052) / POKE 1052,PEEK(1050)
+        clr  == idiom \/ (e.op = "pokehead" /\ e.v = p0[2]) \/ (e.op = "poketail" /\ e.v = p0[1])
+        \* the pointer words are memory: the (valid) value written is the value PEEK reads afterwards
+        pv   == IF ~poke THEN 0 ELSE IF idiom THEN (IF e.op = "pokehead" THEN p0[2] ELSE p0[1]) ELSE e.v
         ok0  == e.op = "readn" => e.n <= Len(q0)
         f    == IF poke \/ e.op = "peek" \/ ~ok0 THEN [q |-> q0, res |-> <<>>] ELSE RefApply(q0, e)
         v    == IF ~BiosOK(b) THEN "ring_pointers_outside_the_ring"
                 ELSE IF ~ok0 THEN "harness_read_more_than_waiting"
-                ELSE IF poke THEN (IF clr /\ ObsHead(b) # ObsTail(b) THEN "clearing_poke_left_keys_between_pointers" ELSE "ok")
+                ELSE IF poke THEN (IF clr /\ ObsHead(b) # ObsTail(b) THEN "clearing_poke_left_keys_between_pointers"
+                                   ELSE IF pv # Word(b, IF e.op = "pokehead" THEN 1 ELSE 3) THEN "poked_pointer_not_read_back"
+                                   ELSE "ok")
                 ELSE IF e.op \in {"inkey", "readn"} /\ e.res # f.res
                      THEN (IF em0 THEN "keys_delivered_after_emptying_poke"
                            ELSE IF e.res = <<>> THEN "waiting_key_not_delivered"
